@@ -95,14 +95,33 @@ fn ordinates(r: &mut Rng, xs: &[f64]) -> (Vec<f64>, &'static str) {
         8 => ((0..n).map(|_| r.small_int(3)).collect(), "small_integers_with_repeats"),
         _ => (xs.iter().map(|x| (x * 0.37).sin()).collect(), "smooth"),
     };
-    (ys.into_iter().map(|y: f64| y * ysc).collect(), name)
+    let mut ys: Vec<f64> = ys.into_iter().map(|y: f64| y * ysc).collect();
+    let mut name = name;
+    if r.chance(0.04) {
+        // plateau at zero written with both signs of zero (y1 - y0 is then -0.0 or +0.0)
+        for y in ys.iter_mut() {
+            *y = if r.chance(0.5) { 0.0 } else { -0.0 };
+        }
+        if r.chance(0.5) {
+            let k = r.usize(0, ys.len() - 1);
+            ys[k] = r.small_int(3);
+        }
+        name = "signed_zero_plateau";
+    } else if r.chance(0.1) {
+        for y in ys.iter_mut() {
+            if *y == 0.0 && r.chance(0.5) {
+                *y = -0.0;
+            }
+        }
+    }
+    (ys, name)
 }
 
 pub fn drive_spline(a: &Args, m: &mut Mon, sink: &mut Sink) {
     let prop = a.prop.clone();
     let tag = if prop == "C05" { "C05" } else { "C04" };
     m.floors(&["family_x:integer_grid", "family_x:far_from_origin", "family_x:geometric_spacing", "family_x:scaled", "family_y:oscillating", "family_y:plateaux",
-        "family_y:ramp_into_plateau", "family_y:collinear", "family_y:collinear_plus_noise", "family_y:monotone_increasing", "three_knots", "segments_checked"]);
+        "family_y:ramp_into_plateau", "family_y:collinear", "family_y:collinear_plus_noise", "family_y:monotone_increasing", "family_y:signed_zero_plateau", "three_knots", "segments_checked"]);
     spline_canaries(m, sink);
     let mut r = Rng::lane(a.seed, tag, a.shard, 0);
     let n = a.n(40_000, 1_500_000);
